@@ -426,22 +426,34 @@ Proof.
     + simpl. rewrite S3. discriminate.
 Qed.
 
-Lemma J_prename s o w : J s o -> J (do_prename s w) o.
+Lemma J_prename s o w mk : J s o -> J (do_prename s w mk) o.
 Proof.
   intros Jo. unfold do_prename. destruct (nth_error (writers s) w) as [wr|] eqn:Hw; [|exact Jo].
   destruct (w_ps wr) as [|stg h i] eqn:Hps; [exact Jo|]. destruct stg as [|[|stg]]; try exact Jo.
   pose proof (j_w _ _ Jo _ _ Hw) as (Hs & Hr & Ho). unfold stage_ok in Hs. rewrite Hps in Hs.
   destruct Hs as (S1 & S2 & S3 & S4 & _ & S6). specialize (S6 eq_refl).
-  assert (E : wext (writers s) (R.upd (writers s) w (wr_ps (wr_renamed wr) (PStage 2 h i)))).
-  { eapply wext_upd; eauto; simpl; auto. }
-  eapply (J_upd_writer s o w wr); [exact Jo|exact Hw|reflexivity| | | |].
-  - simpl. auto.
-  - simpl. auto.
-  - intros k w' [Hin|Hin]; [|left; exact Hin]. inv Hin. right. auto.
-  - split; [|split].
-    + unfold stage_ok. simpl. repeat split; auto; discriminate.
-    + simpl. intros _. eapply committed_ext; [|exact S6]. exact E.
-    + simpl. rewrite S3. discriminate.
+  destruct (mk && negb (closed s)).
+  - assert (E : wext (writers s) (R.upd (writers s) w (wr_ps (wr_renamed wr) (PStage 2 h i)))).
+    { eapply wext_upd; eauto; simpl; auto. }
+    eapply (J_upd_writer s o w wr); [exact Jo|exact Hw|reflexivity| | | |].
+    + simpl. auto.
+    + simpl. auto.
+    + intros k w' [Hin|Hin]; [|left; exact Hin]. inv Hin. right. auto.
+    + split; [|split].
+      * unfold stage_ok. simpl. repeat split; auto; discriminate.
+      * simpl. intros _. eapply committed_ext; [|exact S6]. exact E.
+      * simpl. rewrite S3. discriminate.
+  - assert (E : wext (writers s) (R.upd (writers s) w (wr_ps wr (PStage 2 h i)))).
+    { eapply wext_upd; eauto; simpl; auto. }
+    rewrite <- (set_dir_same s) at 1.
+    eapply (J_upd_writer s o w wr); [exact Jo|exact Hw|reflexivity| | | |].
+    + simpl. auto.
+    + simpl. auto.
+    + auto.
+    + rewrite set_dir_same. split; [|split].
+      * unfold stage_ok. simpl. repeat split; auto; discriminate.
+      * simpl. intros Hren. eapply committed_ext; [exact E|]. apply Hr. exact Hren.
+      * simpl. rewrite S3. discriminate.
 Qed.
 
 Lemma bowner_eq_dec (a b : bowner) : {a = b} + {a <> b}.
@@ -624,7 +636,7 @@ Qed.
 
 Lemma J_add s o k d p : J s o -> exists o', J (fst (do_add s k d p)) o'.
 Proof.
-  intros Jo. unfold do_add. set (w0 := length (writers s)).
+  intros Jo. unfold do_add. destruct (closed s); [simpl; eauto|]. set (w0 := length (writers s)).
   assert (Hoth : forall ws x w (wr' : writer), nth_error (ws ++ [x]) w = Some wr' -> w <> length ws -> nth_error ws w = Some wr').
   { intros ws x w wr' H Hne. rewrite nth_app_other in H by exact Hne. exact H. }
   destruct d.
@@ -1104,14 +1116,32 @@ Proof.
     + intros f c K. rewrite Hfo. auto.
 Qed.
 
-Lemma J_commit s o w : J s o -> exists o', J (do_commit s w) o'.
+(* a Commit that fails before publishing anything (closed cache, MkdirAll failure): the writer is simply dead *)
+Lemma J_fail_commit s o w wr : J s o -> nth_error (writers s) w = Some wr -> w_status wr = WOpen ->
+  J (set_w s w (wr_status wr WAborted)) o.
+Proof.
+  intros Jo Hw Hop. pose proof (j_w _ _ Jo _ _ Hw) as (Hs & Hr & Ho). destruct (Ho Hop) as (Hren & Hps & Hb).
+  rewrite <- (set_dir_same s) at 1.
+  eapply (J_upd_writer s o w wr); [exact Jo|exact Hw|reflexivity| | | |].
+  - rewrite Hop. discriminate.
+  - rewrite Hren. discriminate.
+  - auto.
+  - rewrite set_dir_same. split; [|split].
+    + unfold stage_ok. simpl. rewrite Hps. exact I.
+    + simpl. rewrite Hren. discriminate.
+    + simpl. discriminate.
+Qed.
+
+Lemma J_commit s o w mk : J s o -> exists o', J (do_commit s w mk) o'.
 Proof.
   intros Jo. unfold do_commit. destruct (nth_error (writers s) w) as [wr|] eqn:Hw; [|eauto].
   destruct (w_active wr) eqn:Hact; [|eauto]. pose proof (active_open _ Hact) as Hop.
   pose proof (j_w _ _ Jo _ _ Hw) as (Hs & Hr & Ho). destruct (Ho Hop) as (Hren & Hps & Hb).
   assert (Hwl : w < length (writers s)) by (eapply RP.nth_some_lt; eauto).
+  destruct (closed s); [exists o; eapply J_fail_commit; eauto|].
   destruct (w_buf wr) as [b|] eqn:Hbuf.
   2:{ (* direct writer: rename *)
+    destruct mk; [|exists o; eapply J_fail_commit; eauto].
     exists o. eapply (J_upd_writer s o w wr); [exact Jo|exact Hw|reflexivity| | | |].
     - rewrite Hop. discriminate.
     - rewrite Hren. discriminate.
@@ -1554,7 +1584,7 @@ Qed.
 
 Lemma J_get s o k d : J s o -> exists o', J (fst (do_get s k d)) o'.
 Proof.
-  intros Jo. unfold do_get. destruct d; [eapply J_get_open; exact Jo|].
+  intros Jo. unfold do_get. destruct (closed s); [simpl; eauto|]. destruct d; [eapply J_get_open; exact Jo|].
   destruct (is_hit (snd (get_mem s k))); [eapply J_get_mem; exact Jo|].
   destruct (is_hit (snd (get_fd s k))); [eapply J_get_fd; exact Jo|eapply J_get_open; exact Jo].
 Qed.
@@ -1578,6 +1608,7 @@ Proof.
   - eauto.
   - eapply J_closer; exact Jo.
   - eauto.
+  - exists o. destruct Jo. constructor; simpl; try assumption. intros k w [].
 Qed.
 
 Theorem J_exec os : forall s o, J s o -> exists o', J (exec s os) o'.
@@ -1820,23 +1851,25 @@ Proof. unfold get_open. destruct (find (dir s) k); simpl; [right; left; eauto|le
 Lemma step_readers s o : rstep_shape (readers s) (readers (fst (step s o))).
 Proof.
   destruct o; simpl.
-  - left. unfold do_add. destruct direct; [reflexivity|]. unfold take_buf.
+  - left. unfold do_add. destruct (closed s); [reflexivity|]. destruct direct; [reflexivity|]. unfold take_buf.
     destruct pick as [b|]; [destruct (existsb _ _)|]; reflexivity.
   - left. unfold do_write. destruct (nth_error _ _) as [wr|]; [|reflexivity]. destruct (w_active wr); [|reflexivity].
     destruct (w_buf wr); reflexivity.
   - left. unfold do_commit. destruct (nth_error _ _) as [wr|]; [|reflexivity]. destruct (w_active wr); [|reflexivity].
-    destruct (w_buf wr) as [b|]; [|reflexivity].
+    destruct (closed s); [reflexivity|].
+    destruct (w_buf wr) as [b|]; [|destruct mk; reflexivity].
     destruct (R.step _ _) as [c' [[i added]|]]; [|reflexivity].
     destruct added; simpl; rewrite readers_dc_apply; reflexivity.
   - left. unfold do_pwrite. destruct (nth_error _ _) as [wr|]; [|reflexivity]. destruct (w_ps wr) as [|[|?] ? ?]; reflexivity.
   - left. unfold do_pfail. destruct (nth_error _ _) as [wr|]; [|reflexivity]. destruct (w_ps wr) as [|[|?] ? ?]; reflexivity.
-  - left. unfold do_prename. destruct (nth_error _ _) as [wr|]; [|reflexivity]. destruct (w_ps wr) as [|[|[|?]] ? ?]; reflexivity.
+  - left. unfold do_prename. destruct (nth_error _ _) as [wr|]; [|reflexivity]. destruct (w_ps wr) as [|[|[|?]] ? ?]; try reflexivity.
+    destruct (mk && negb (closed s)); reflexivity.
   - left. unfold do_pdone. destruct (nth_error _ _) as [wr|]; [|reflexivity]. destruct (w_ps wr) as [|[|[|[|?]]] ? ?]; try reflexivity.
     unfold dc_release. rewrite readers_dc_apply. reflexivity.
   - left. unfold do_abort. destruct (nth_error _ _) as [wr|]; [|reflexivity]. destruct (w_active wr); [|reflexivity].
     destruct (w_buf wr); reflexivity.
   - left. unfold do_closew. destruct (nth_error _ _); reflexivity.
-  - unfold do_get. destruct direct; [apply get_open_readers|].
+  - unfold do_get. destruct (closed s); [left; reflexivity|]. destruct direct; [apply get_open_readers|].
     destruct (is_hit _); [apply get_mem_readers|]. destruct (is_hit _); [apply get_fd_readers|apply get_open_readers].
   - apply get_mem_readers.
   - apply get_fd_readers.
@@ -1850,6 +1883,7 @@ Proof.
     + unfold fd_put. destruct (R.step _ _) as [c1 [[j added]|]]; [|reflexivity].
       unfold fc_release. rewrite readers_fc_apply. destruct added; [|rewrite close_fd_readers]; rewrite readers_fc_apply; reflexivity.
     + rewrite close_fd_readers. reflexivity.
+  - left. reflexivity.
   - left. reflexivity.
 Qed.
 
@@ -1931,7 +1965,7 @@ Lemma get_out s k d :
   | _ => False
   end.
 Proof.
-  simpl. unfold do_get. destruct d; [apply get_open_out|].
+  simpl. unfold do_get. destruct (closed s); [reflexivity|]. destruct d; [apply get_open_out|].
   pose proof (get_mem_out s k) as H1. destruct (snd (get_mem s k)) eqn:E1; simpl; try contradiction; [|rewrite E1; exact H1].
   pose proof (get_fd_out s k) as H2. destruct (snd (get_fd s k)) eqn:E2; simpl; try contradiction; [|rewrite E2; exact H2].
   apply get_open_out.
@@ -1973,7 +2007,7 @@ Lemma step_acc s o w wr wr' :
   nth_error (writers s) w = Some wr -> nth_error (writers (fst (step s o))) w = Some wr' -> acc_step o w wr wr'.
 Proof.
   intros Hw. destruct o; simpl.
-  - unfold do_add. destruct direct; simpl; [apply acc_app; exact Hw|]. unfold take_buf.
+  - unfold do_add. destruct (closed s); [simpl; acc_s Hw|]. destruct direct; simpl; [apply acc_app; exact Hw|]. unfold take_buf.
     destruct pick as [b|]; [destruct (existsb _ _)|]; simpl; apply acc_app; exact Hw.
   - unfold do_write. destruct (nth_error (writers s) w0) as [wr0|] eqn:H0; [|acc_s Hw].
     destruct (w_active wr0) eqn:Ha; [|acc_s Hw]. pose proof (active_open _ Ha) as Hop.
@@ -1985,7 +2019,8 @@ Proof.
     destruct (w_buf wr0); simpl; apply Hgen; reflexivity.
   - unfold do_commit. destruct (nth_error (writers s) w0) as [wr0|] eqn:H0; [|acc_s Hw].
     destruct (w_active wr0); [|acc_s Hw].
-    destruct (w_buf wr0) as [b|]; [|simpl; acc_u H0 Hw].
+    destruct (closed s); [simpl; acc_u H0 Hw|].
+    destruct (w_buf wr0) as [b|]; [|destruct mk; simpl; acc_u H0 Hw].
     destruct (R.step _ _) as [c' [[i added]|]]; [|acc_s Hw].
     assert (Hl : w0 < length (writers s)) by (eapply RP.nth_some_lt; eauto).
     destruct added; simpl; rewrite writers_dc_apply; simpl; rewrite RP.upd_upd; acc_u H0 Hw.
@@ -1994,7 +2029,7 @@ Proof.
   - unfold do_pfail. destruct (nth_error (writers s) w0) as [wr0|] eqn:H0; [|acc_s Hw].
     destruct (w_ps wr0) as [|[|?] ? ?]; try (acc_s Hw). simpl. acc_u H0 Hw.
   - unfold do_prename. destruct (nth_error (writers s) w0) as [wr0|] eqn:H0; [|acc_s Hw].
-    destruct (w_ps wr0) as [|[|[|?]] ? ?]; try (acc_s Hw). simpl. acc_u H0 Hw.
+    destruct (w_ps wr0) as [|[|[|?]] ? ?]; try (acc_s Hw). destruct (mk && negb (closed s)); simpl; acc_u H0 Hw.
   - unfold do_pdone. destruct (nth_error (writers s) w0) as [wr0|] eqn:H0; [|acc_s Hw].
     destruct (w_ps wr0) as [|[|[|[|?]]] ? ?]; try (acc_s Hw).
     unfold dc_release. rewrite writers_dc_apply. simpl. acc_u H0 Hw.
@@ -2008,7 +2043,7 @@ Proof.
     { unfold get_fd. destruct (R.step _ _) as [c' [[i fl]|]]; simpl; [apply writers_fc_apply|reflexivity]. }
     assert (Ho : forall d, writers (fst (get_open s k d)) = writers s).
     { intros d. unfold get_open. destruct (find _ _); reflexivity. }
-    unfold do_get. destruct direct; [rewrite Ho; acc_s Hw|].
+    unfold do_get. destruct (closed s); [simpl; acc_s Hw|]. destruct direct; [rewrite Ho; acc_s Hw|].
     destruct (is_hit _); [rewrite Hm; acc_s Hw|]. destruct (is_hit _); [rewrite Hf|rewrite Ho]; acc_s Hw.
   - unfold get_mem. destruct (R.step _ _) as [c' [[i fl]|]]; simpl; [rewrite writers_dc_apply|]; acc_s Hw.
   - unfold get_fd. destruct (R.step _ _) as [c' [[i fl]|]]; simpl; [rewrite writers_fc_apply|]; acc_s Hw.
@@ -2023,6 +2058,7 @@ Proof.
       unfold fc_release. rewrite writers_fc_apply. destruct added; [|rewrite close_fd_writers]; rewrite writers_fc_apply; simpl; acc_s Hw.
     + rewrite close_fd_writers. simpl. acc_s Hw.
   - acc_s Hw.
+  - simpl. acc_s Hw.
 Qed.
 
 (* a writer is born with an empty accumulator *)
@@ -2041,13 +2077,14 @@ Proof.
     { intros x H'. destruct (Nat.eq_dec w (length (writers s))) as [->|Hne].
       - rewrite RP.nth_app_new in H'. inv H'. reflexivity.
       - rewrite nth_app_other in H' by exact Hne. congruence. }
-    unfold do_add in H. destruct direct.
+    unfold do_add in H. destruct (closed s); [simpl in H; congruence|]. destruct direct.
     + simpl in H. apply Hadd in H. subst. simpl. eauto 8.
     + unfold take_buf in H. destruct pick as [b|]; [destruct (existsb _ _)|]; simpl in H; apply Hadd in H; subst; simpl; eauto 8.
   - exfalso. eapply Hlen; [|exact H]. unfold do_write. destruct (nth_error (writers s) w0) as [wr0|]; [|reflexivity].
     destruct (w_active wr0); [|reflexivity]. destruct (w_buf wr0); simpl; apply RP.upd_length.
   - exfalso. eapply Hlen; [|exact H]. unfold do_commit. destruct (nth_error (writers s) w0) as [wr0|]; [|reflexivity].
-    destruct (w_active wr0); [|reflexivity]. destruct (w_buf wr0); [|simpl; apply RP.upd_length].
+    destruct (w_active wr0); [|reflexivity]. destruct (closed s); [simpl; apply RP.upd_length|].
+    destruct (w_buf wr0); [|destruct mk; simpl; apply RP.upd_length].
     destruct (R.step _ _) as [c' [[i added]|]]; [|reflexivity].
     destruct added; simpl; rewrite writers_dc_apply; simpl; rewrite !RP.upd_length; reflexivity.
   - exfalso. eapply Hlen; [|exact H]. unfold do_pwrite. destruct (nth_error (writers s) w0) as [wr0|]; [|reflexivity].
@@ -2055,7 +2092,7 @@ Proof.
   - exfalso. eapply Hlen; [|exact H]. unfold do_pfail. destruct (nth_error (writers s) w0) as [wr0|]; [|reflexivity].
     destruct (w_ps wr0) as [|[|?] ? ?]; try reflexivity. simpl. apply RP.upd_length.
   - exfalso. eapply Hlen; [|exact H]. unfold do_prename. destruct (nth_error (writers s) w0) as [wr0|]; [|reflexivity].
-    destruct (w_ps wr0) as [|[|[|?]] ? ?]; try reflexivity. simpl. apply RP.upd_length.
+    destruct (w_ps wr0) as [|[|[|?]] ? ?]; try reflexivity. destruct (mk && negb (closed s)); simpl; apply RP.upd_length.
   - exfalso. eapply Hlen; [|exact H]. unfold do_pdone. destruct (nth_error (writers s) w0) as [wr0|]; [|reflexivity].
     destruct (w_ps wr0) as [|[|[|[|?]]] ? ?]; try reflexivity. unfold dc_release. rewrite writers_dc_apply. simpl. apply RP.upd_length.
   - exfalso. eapply Hlen; [|exact H]. unfold do_abort. destruct (nth_error (writers s) w0) as [wr0|]; [|reflexivity].
@@ -2068,7 +2105,7 @@ Proof.
     { unfold get_fd. destruct (R.step _ _) as [c' [[i fl]|]]; simpl; [apply writers_fc_apply|reflexivity]. }
     assert (Ho : forall d, writers (fst (get_open s k d)) = writers s).
     { intros d. unfold get_open. destruct (find _ _); reflexivity. }
-    unfold do_get. destruct direct; [rewrite Ho; reflexivity|].
+    unfold do_get. destruct (closed s); [reflexivity|]. destruct direct; [rewrite Ho; reflexivity|].
     destruct (is_hit _); [rewrite Hm; reflexivity|]. destruct (is_hit _); [rewrite Hf|rewrite Ho]; reflexivity.
   - exfalso. eapply Hlen; [|exact H]. unfold get_mem. destruct (R.step _ _) as [c' [[i fl]|]]; simpl; [rewrite writers_dc_apply|]; reflexivity.
   - exfalso. eapply Hlen; [|exact H]. unfold get_fd. destruct (R.step _ _) as [c' [[i fl]|]]; simpl; [rewrite writers_fc_apply|]; reflexivity.
@@ -2082,6 +2119,7 @@ Proof.
     + unfold fd_put. destruct (R.step _ _) as [c1 [[j added]|]]; [|reflexivity].
       unfold fc_release. rewrite writers_fc_apply. destruct added; [|rewrite close_fd_writers]; rewrite writers_fc_apply; reflexivity.
     + rewrite close_fd_writers. reflexivity.
+  - congruence.
   - congruence.
 Qed.
 
@@ -2097,4 +2135,80 @@ Proof.
   intros H. destruct (nth_error (writers s) w) as [wr|] eqn:E.
   - exact (step_acc s o w wr wr' E H).
   - exact (step_new_writer s o w wr' E H).
+Qed.
+
+(* ------------------------------------------------------------------------------------------ *)
+(* cache.Close(): afterwards the API never hits and nothing is linked in the directory any more *)
+(* ------------------------------------------------------------------------------------------ *)
+Lemma closed_fold {A} (f : st -> A -> st) l : (forall s a, closed (f s a) = closed s) -> forall s, closed (fold_left f l s) = closed s.
+Proof. intros Hf. induction l as [|a l IH]; intros s; simpl; [reflexivity|]. rewrite IH. apply Hf. Qed.
+Lemma closed_close_fd s f : closed (close_fd s f) = closed s.
+Proof. unfold close_fd. destruct (nth_error (fds s) f) as [[w op]|]; reflexivity. Qed.
+Lemma closed_dc_apply s c dv : closed (dc_apply s c dv) = closed s.
+Proof. unfold dc_apply. rewrite closed_fold; [reflexivity|]. intros; reflexivity. Qed.
+Lemma closed_fc_apply s c fv : closed (fc_apply s c fv) = closed s.
+Proof. unfold fc_apply. rewrite closed_fold; [reflexivity|]. intros; apply closed_close_fd. Qed.
+Lemma dir_dc_apply s c dv : dir (dc_apply s c dv) = dir s.
+Proof. unfold dc_apply. destruct (recycle_all_spec (map (fun i => nth i dv 0) (finalised (dc s) c)) (set_dc s c dv)) as (_ & _ & _ & _ & _ & A6 & _). exact A6. Qed.
+Lemma dir_fc_apply s c fv : dir (fc_apply s c fv) = dir s.
+Proof. unfold fc_apply. destruct (close_all_spec (map (fun j => nth j fv 0) (finalised (fc s) c)) (set_fc s c fv)) as (_ & _ & _ & _ & _ & _ & A7 & _). exact A7. Qed.
+Lemma dir_close_fd s f : dir (close_fd s f) = dir s.
+Proof. unfold close_fd. destruct (nth_error (fds s) f) as [[w op]|]; reflexivity. Qed.
+
+Definition shut (s : st) : Prop := closed s = true /\ dir s = [].
+
+Lemma shut_get_mem s k : shut s -> shut (fst (get_mem s k)).
+Proof. intros [C D]. unfold get_mem. destruct (R.step _ _) as [c' [[i fl]|]]; simpl; [|split; auto].
+  split; simpl; [rewrite closed_dc_apply|rewrite dir_dc_apply]; auto. Qed.
+Lemma shut_get_fd s k : shut s -> shut (fst (get_fd s k)).
+Proof. intros [C D]. unfold get_fd. destruct (R.step _ _) as [c' [[i fl]|]]; simpl; [|split; auto].
+  split; simpl; [rewrite closed_fc_apply|rewrite dir_fc_apply]; auto. Qed.
+Lemma shut_get_open s k d : shut s -> fst (get_open s k d) = s.
+Proof. intros [C D]. unfold get_open. rewrite D. reflexivity. Qed.
+
+Lemma shut_step s o : shut s -> shut (fst (step s o)).
+Proof.
+  intros Hs. pose proof Hs as [C D]. destruct o; simpl.
+  - unfold do_add. rewrite C. exact Hs.
+  - unfold do_write. destruct (nth_error _ _) as [wr|]; [|exact Hs]. destruct (w_active wr); [|exact Hs].
+    destruct (w_buf wr); split; assumption.
+  - unfold do_commit. destruct (nth_error _ _) as [wr|]; [|exact Hs]. destruct (w_active wr); [|exact Hs].
+    rewrite C. split; assumption.
+  - unfold do_pwrite. destruct (nth_error _ _) as [wr|]; [|exact Hs]. destruct (w_ps wr) as [|[|?] ? ?]; try exact Hs; split; assumption.
+  - unfold do_pfail. destruct (nth_error _ _) as [wr|]; [|exact Hs]. destruct (w_ps wr) as [|[|?] ? ?]; try exact Hs; split; assumption.
+  - unfold do_prename. destruct (nth_error _ _) as [wr|]; [|exact Hs]. destruct (w_ps wr) as [|[|[|?]] ? ?]; try exact Hs;
+    rewrite C; rewrite andb_false_r; split; assumption.
+  - unfold do_pdone. destruct (nth_error _ _) as [wr|]; [|exact Hs]. destruct (w_ps wr) as [|[|[|[|?]]] ? ?]; try exact Hs;
+    unfold dc_release; split; [rewrite closed_dc_apply|rewrite dir_dc_apply]; assumption.
+  - unfold do_abort. destruct (nth_error _ _) as [wr|]; [|exact Hs]. destruct (w_active wr); [|exact Hs].
+    destruct (w_buf wr); split; assumption.
+  - unfold do_closew. destruct (nth_error _ _); [split; assumption|exact Hs].
+  - unfold do_get. rewrite C. exact Hs.
+  - apply shut_get_mem; exact Hs.
+  - apply shut_get_fd; exact Hs.
+  - rewrite shut_get_open; exact Hs.
+  - exact Hs.
+  - unfold do_closer. destruct (nth_error (readers s) r) as [rd|]; [|exact Hs]. destruct (r_open rd); [|exact Hs].
+    destruct (r_kind rd) as [b len h|f h|f [|]].
+    + unfold dc_release. split; [rewrite closed_dc_apply|rewrite dir_dc_apply]; assumption.
+    + unfold fc_release. split; [rewrite closed_fc_apply|rewrite dir_fc_apply]; assumption.
+    + unfold fd_put. destruct (R.step _ _) as [c1 [[j added]|]]; [|split; assumption].
+      unfold fc_release. split; [rewrite closed_fc_apply|rewrite dir_fc_apply];
+        (destruct added; [|rewrite ?closed_close_fd, ?dir_close_fd]); rewrite ?closed_fc_apply, ?dir_fc_apply; assumption.
+    + split; [rewrite closed_close_fd|rewrite dir_close_fd]; assumption.
+  - exact Hs.
+  - split; reflexivity.
+Qed.
+
+Lemma shut_exec os : forall s, shut s -> shut (exec s os).
+Proof. induction os as [|o os IH]; intros s Hs; simpl; [exact Hs|]. apply IH. apply shut_step. exact Hs. Qed.
+
+Lemma after_close s0 os k d p :
+  let s := exec s0 (CloseCache :: os) in
+  step s (Get k d) = (s, OMiss) /\ step s (Add k d p) = (s, OErr) /\ do_peek s k = OMiss
+  /\ snd (get_open s k d) = OMiss.
+Proof.
+  intros s. assert (Hs : shut s).
+  { unfold s. simpl. apply shut_exec. split; reflexivity. }
+  destruct Hs as [C D]. simpl. unfold do_get, do_add, do_peek, get_open. rewrite C, D. auto.
 Qed.
